@@ -18,7 +18,8 @@ pub open spec fn wf_segment(s: Segment) -> bool decreases s {
     match s {
         Segment::Descendant(b) => wf_segment(*b),
         Segment::Selector(sel) => wf_selector(sel),
-        Segment::Selectors(v) => forall|i: int| 0 <= i < v@.len() ==> wf_selector(#[trigger] v@[i]),
+        // (the grammar has no empty bracketed selection)
+        Segment::Selectors(v) => v@.len() > 0 && forall|i: int| 0 <= i < v@.len() ==> wf_selector(#[trigger] v@[i]),
     }
 }
 pub open spec fn wf_segments(v: Seq<Segment>) -> bool decreases v {
@@ -29,6 +30,11 @@ pub open spec fn has_union(s: Segment) -> bool decreases s {
 }
 pub open spec fn union_free(segs: Seq<Segment>) -> bool {
     forall|i: int| 0 <= i < segs.len() ==> !has_union(#[trigger] segs[i])
+}
+// the segment list is evaluated RFC-exactly from this input: no multi-selector part anywhere, except that the FIRST
+// segment may be a multi-selector segment when the list starts from a single node (KNOWN FINDING KF-C02-union-order)
+pub open spec fn segs_exact(segs: Seq<Segment>, single_input: bool) -> bool {
+    forall|i: int| 0 <= i < segs.len() ==> !has_union(#[trigger] segs[i]) || (i == 0 && single_input && segs[i] is Selectors)
 }
 pub open spec fn wf_filter(f: Filter) -> bool decreases f {
     match f {
@@ -47,10 +53,10 @@ pub open spec fn wf_atom(a: FilterAtom) -> bool decreases a {
 }
 pub open spec fn wf_test(t: Test) -> bool decreases t {
     match t {
-        // (no multi-selector segment inside a filter query: KNOWN FINDING process_selectors.order — the Verus
+        // (restriction on multi-selector segments inside a filter query, segs_exact: KNOWN FINDING process_selectors.order — the Verus
         //  claim is restricted to union-free queries, the bounded back end covers the rest)
-        Test::RelQuery(v) => wf_segments(v@) && union_free(v@),
-        Test::AbsQuery(q) => wf_segments(q.segments@) && union_free(q.segments@),
+        Test::RelQuery(v) => wf_segments(v@) && segs_exact(v@, true),
+        Test::AbsQuery(q) => wf_segments(q.segments@) && segs_exact(q.segments@, true),
         Test::Function(tf) => wf_fn(*tf),
     }
 }
